@@ -43,6 +43,8 @@ def derives_from(port, cls, root):
 def chain_writers(port, mod):
     out = []
     for c in port.classes_in(mod):
+        if getattr(c, 'verif_new_base', False):
+            continue      # a base class extracted from the chain writers is not itself installed in a chain
         ms = methods(c)
         if '__init__' in ms and 'finish' in ms and 'subwriter' in self_attrs_assigned(ms['__init__']):
             if any((call_name(x) or '') == 'self.subwriter.finish' for x in ast.walk(ms['finish']) if isinstance(x, ast.Call)):
